@@ -228,6 +228,51 @@ pub fn one_main(args: &Args) -> i32 {
     0
 }
 
+/// Execute a strided slice of the index space in this process (used under Miri, where a
+/// memory-safety error ends the process: the last `B <i>` names the index).
+pub fn slice_main(args: &Args) -> i32 {
+    let prop = args.get("prop").unwrap_or("").to_string();
+    let tier = Tier::parse(args.get("tier").unwrap_or("quick")).unwrap_or(Tier::Quick);
+    let engine = args.get("engine").unwrap_or("").to_string();
+    let seed = args.u64("seed", crate::rng::DEFAULT_SEED);
+    let start = args.u64("start", 0);
+    let step = args.u64("step", 1).max(1);
+    let count = args.u64("count", 1);
+    let max_bytes = args.u64("max-bytes", u64::MAX);
+    install_panic_hook();
+    let mon = engines::monitors_for(&prop);
+    let mut done = 0u64;
+    let mut i = start;
+    let mut tried = 0u64;
+    while done < count && tried < count * 64 {
+        tried += 1;
+        let case = engines::gen_case(&engine, &prop, tier, seed, i);
+        let idx = i;
+        i += step;
+        if case.total_bytes() as u64 > max_bytes {
+            continue;
+        }
+        emit(&format!("B {}", idx));
+        let p2 = prop.clone();
+        let res = on_big_stack(move || {
+            let outs = process_index(&case, mon, false);
+            let mut v = Vec::new();
+            for (c, o) in outs {
+                let class = o.class().filter(|c| engines::class_belongs(&p2, c)).map(|s| s.to_string());
+                if class.is_some() {
+                    emit(&format!("E {}", c.to_json()));
+                }
+                v.push(json!({"digest": format!("{:016x}", o.digest), "class": class, "ops": o.ops, "fired": o.fired}));
+            }
+            v
+        });
+        emit(&format!("R {} {}", idx, json!(res)));
+        done += 1;
+    }
+    emit(&format!("S {}", done));
+    0
+}
+
 /// Execute the case stored in a replay file; prints `R {class, detail, digest, log}`.
 pub fn exec_case_main(args: &Args) -> i32 {
     let path = match args.pos.get(1) {
